@@ -25,6 +25,7 @@ mod cmd_manifest;
 mod cmd_entjson;
 mod cmd_ffi;
 mod cmd_tpe;
+mod cmd_symcc;
 
 /// Command families.  To add one: create src/cmd_xxx.rs with
 /// `pub fn dispatch(cmd: &str, v: &J) -> Option<Result<J, String>>`, add `mod cmd_xxx;` above
@@ -49,6 +50,7 @@ const FAMILIES: &[fn(&str, &J) -> Option<Result<J, String>>] = &[
     cmd_entjson::dispatch,
     cmd_ffi::dispatch,
     cmd_tpe::dispatch,
+    cmd_symcc::dispatch,
 ];
 
 fn dispatch(cmd: &str, v: &J) -> Result<J, String> {
